@@ -366,7 +366,11 @@ def tensor_contract(qobj: Qobj, *pairs: tuple[int, int]) -> Qobj:
     # We don't need to check for tensor idxs versus dims idxs here,
     # as column- versus row-stacking will never move an index for the
     # vectorized operator spaces all the way from the left to the right.
-    l_mtx_dims, r_mtx_dims = map(np.prod, map(flatten, contracted_dims))
+    # A side whose indices were all contracted away is the scalar space.
+    contracted_dims = [side if flatten(side) else [1] for side in contracted_dims]
+    l_mtx_dims, r_mtx_dims = (
+        int(np.prod(flatten(side))) for side in contracted_dims
+    )
 
     # Reshape back into a 2D matrix.
     qmtx = qtens.reshape((l_mtx_dims, r_mtx_dims))
